@@ -1,6 +1,7 @@
 package harness
 
 import (
+	"sort"
 	"encoding/binary"
 	"fmt"
 	"strings"
@@ -66,6 +67,10 @@ func (r *Run) bessEntriesOf(fseid uint64) (n int, sample string) {
 }
 
 func scenarioC05(r *Run) {
+	if r.Ch.Choose(3, "datapath") == 1 {
+		scenarioC05UP4(r)
+		return
+	}
 	r.Conf = DefaultBESSConf()
 	r.Conf.EnableHBTimer = true
 	r.Conf.HeartBeatInterval = "1s"
@@ -279,6 +284,290 @@ func scenarioC05(r *Run) {
 	}
 	if len(r.Violations) == 0 && r.AgentAlive() && !lossy {
 		r.Probe(fmt.Sprintf("cycles-beyond-pool-size-%d", poolSize))
+	}
+	r.CheckNoPanics("C05")
+}
+
+
+// scenarioC05UP4 is the P4Runtime side of C05: attach/detach cycles on the UP4
+// datapath with small counter / meter arrays, each session ended one of the
+// five ways; afterwards the switch holds nothing of the session and every id
+// pool of the plug-in is back to its size before the first session.
+func scenarioC05UP4(r *Run) {
+	r.FirstOnly = true
+	o := r.DrawUP4Conf()
+	r.Conf.EnableHBTimer = true
+	r.Conf.HeartBeatInterval = "1s"
+	r.Conf.MaxReqRetries = 1
+	r.Conf.RespTimeout = "500ms"
+	r.Conf.ReadTimeout = 3
+	pool := []string{"10.60.0.0/29", "10.60.0.0/30"}[r.Ch.Choose(2, "pool")]
+	poolSize := map[string]int{"10.60.0.0/29": 6, "10.60.0.0/30": 2}[pool]
+	r.Conf.CPIface.UEIPPool = pool
+	o.UEPool = pool
+	r.DrawStrategy()
+	sw := r.W.P4
+	small := int64(6 + 3*r.Ch.Choose(3, "arrays"))
+	for _, n := range []string{mApp, mSess, cPre, cPost} {
+		sw.Resize(n, small)
+	}
+	p := r.AddPeer()
+	r.StartAgent()
+	if !r.WaitUP4Ready() {
+		r.CheckNoPanics("C05")
+		return
+	}
+	var occ0 map[string]int
+	probeOcc := func() (m map[string]int) {
+		a := r.Agent
+		vsim.Ephemeral(func() { m = a.VerifUP4Occupancy() })
+		return
+	}
+	g := NewGen(r)
+	g.PlainQER = true
+	g.UP4 = true
+	g.DrawAvoid()
+	shared := []*FlowSpec{g.Flow(false), g.Flow(false)}
+	keepAlive := true
+	kaPeriod := time.Second
+	var ka func()
+	ka = func() {
+		r.Sim.After(kaPeriod, func() {
+			if keepAlive && p.Associated && r.AgentAlive() {
+				p.SendMsg(message.NewHeartbeatRequest(p.NextSeq(), ie.NewRecoveryTimeStamp(p.TS), nil))
+			}
+			ka()
+		})
+	}
+	ka()
+	cycles := poolSize
+	if int(small) > cycles {
+		cycles = int(small)
+	}
+	cycles += 2 + r.Ch.Choose(3, "extra-cycles")
+	r.Skel(fmt.Sprintf("up4 pool=%d arrays=%d", poolSize, small))
+	kinds := map[string]bool{}
+	for c := 0; c < cycles && r.AgentAlive() && len(r.Violations) == 0; c++ {
+		if !p.Associated {
+			p.AnswerHeartbeats, keepAlive = true, true
+			if p.AssociateRetry() == nil {
+				if r.AgentAlive() {
+					r.Violate("C05", "cannot-associate:up4", "cycle %d: Association Setup not accepted\n%s", c, strings.Join(r.Sim.BlockedTable(), "\n"))
+				}
+				return
+			}
+		}
+		if occ0 == nil {
+			occ0 = probeOcc()
+		}
+		if r.Ch.Choose(4, "rejected-est") == 1 {
+			// refused after PDRs, QERs and FARs were parsed (and ids possibly taken)
+			bad := g.Session(p, SessShape{UEAlloc: true, TEIDChoose: true, NQER: r.Ch.Choose(3, "bad-nq")})
+			bad.FARs = append(bad.FARs, &FARSpec{ID: 7, Action: 0})
+			res := p.Establish(bad)
+			r.Op("cycle %d: establishment with an invalid FAR after valid rules -> accepted=%v cause=%d", c, res.Accepted, res.Cause)
+			r.Skel("rejected-est")
+			if res.Accepted {
+				delete(p.Sessions, bad.CPSEID)
+			} else if res.Rx != nil {
+				r.Probe("establishment-rejected-after-allocation")
+			}
+		}
+		sh := SessShape{UEAlloc: r.Ch.Choose(2, "uealloc") == 1, TEIDChoose: true, NQER: r.Ch.Choose(3, "nq")}
+		if k := r.Ch.Choose(3, "appfilter"); k > 0 {
+			sh.BaseSDF = shared[k-1]
+		}
+		s := g.Session(p, sh)
+		ending := []string{"deletion", "release", "silence", "hbfail", "report-not-found"}[r.Ch.Choose(5, "ending")]
+		res := p.Establish(s)
+		if !res.Accepted {
+			if res.Rx != nil && r.AgentAlive() {
+				st, _ := r.probeAgent(nil)
+				r.Violate("C05", "pool-exhausted-by-cycles:up4", "cycle %d of %d (UE pool of %d addresses, counter / meter arrays of %d cells): establishment rejected with cause %d although no session is live; pool free=%d held=%d, TEIDs marked used=%d, session records=%d, UP4 occupancy %v (before the first session %v)",
+					c, cycles, poolSize, small, res.Cause, st.poolFree, st.poolHeld, st.teidsUsed, st.stored, probeOcc(), occ0)
+			}
+			return
+		}
+		r.Accepted++
+		var teids []uint32
+		for _, x := range s.PDRs {
+			if x.TEIDChoose && x.GotTEID != 0 {
+				teids = append(teids, x.GotTEID)
+			}
+		}
+		ue := uint32(0)
+		for _, x := range s.PDRs {
+			if x.SrcIface == IfCore {
+				ue = x.EffUEIP()
+			}
+		}
+		// history before the end: the UE goes idle and active again (the way
+		// pfcpsim sends it: buffering FAR keeps the gNB address, TEID 0), hand-overs
+		nm := r.Ch.Choose(4, "nmods")
+		for k := 0; k < nm; k++ {
+			old := s.FAR(2)
+			var f FARSpec
+			m := &ModSpec{}
+			switch r.Ch.Choose(4, "farmod") {
+			case 0: // idle, pfcpsim style
+				gnb := g.gnbs[0]
+				if old.HasOHC && old.PeerIP != nil {
+					gnb = old.PeerIP
+				}
+				f = FARSpec{ID: 2, Action: ActBUFF | ActNOCP, DstIface: IfAccess, HasFwd: true, HasOHC: true, TEID: 0, PeerIP: gnb}
+				m.Tag = "uF:idle"
+			case 1: // active again towards the same gNB
+				gnb := g.gnbs[0]
+				if old.HasOHC && old.PeerIP != nil {
+					gnb = old.PeerIP
+				}
+				g.nextTEID++
+				f = FARSpec{ID: 2, Action: ActFORW, DstIface: IfAccess, HasFwd: true, HasOHC: true, TEID: g.nextTEID, PeerIP: gnb}
+				m.Tag = "uF:active"
+			case 2: // hand-over to another gNB: reaches a listed finding
+				if g.Avoid["up4-far-update-leaves-tunnel-peer"] || !old.HasOHC {
+					continue
+				}
+				g.nextTEID++
+				f = FARSpec{ID: 2, Action: ActFORW, DstIface: IfAccess, HasFwd: true, HasOHC: true, TEID: g.nextTEID, PeerIP: g.gnbs[1+r.Ch.Choose(2, "ho-gnb")]}
+				if f.PeerIP.Equal(old.PeerIP) {
+					continue
+				}
+				m.Tag, m.Trigger = "uF:handover", "up4-far-update-leaves-tunnel-peer"
+			case 3: // buffering without forwarding parameters: reaches the same finding
+				if g.Avoid["up4-far-update-leaves-tunnel-peer"] || !old.HasOHC || old.TEID == 0 {
+					continue
+				}
+				f = FARSpec{ID: 2, Action: ActBUFF | ActNOCP, DstIface: IfAccess, HasFwd: true}
+				m.Tag, m.Trigger = "uF:buffer", "up4-far-update-leaves-tunnel-peer"
+			}
+			if ending == "report-not-found" && f.Action&ActNOCP == 0 {
+				continue
+			}
+			m.UpdateFAR = []*FARSpec{&f}
+			if m.Trigger != "" {
+				r.Taint(s.UPSEID, m.Trigger)
+			}
+			mr := p.Modify(s, m)
+			r.Op("  modify %s -> accepted=%v", m.Describe(), mr.Accepted)
+			r.Skel("mod:" + m.Tag)
+		}
+		if ending == "report-not-found" && s.FAR(2).Action&ActNOCP == 0 {
+			f := FARSpec{ID: 2, Action: ActBUFF | ActNOCP, DstIface: IfAccess, HasFwd: true, HasOHC: true, TEID: 0, PeerIP: s.FAR(2).PeerIP}
+			if f.PeerIP == nil {
+				f.PeerIP = g.gnbs[0]
+			}
+			mr := p.Modify(s, &ModSpec{Tag: "uF:idle", UpdateFAR: []*FARSpec{&f}})
+			r.Op("  modify to idle (for the report) -> accepted=%v", mr.Accepted)
+			if !mr.Accepted {
+				ending = "deletion"
+			}
+		}
+		if r.Ch.Choose(3, "rejmod") == 1 {
+			mr := p.Modify(s, &ModSpec{Tag: "rP+unknown", RemovePDR: []uint16{99}})
+			r.Op("  modify removing unknown PDR 99 -> accepted=%v", mr.Accepted)
+			r.Skel("rejected-mod")
+			if !mr.Accepted && mr.Rx != nil {
+				r.Probe("modification-rejected")
+			}
+		}
+		up := s.UPSEID
+		r.Op("cycle %d: session cp=%d up=%d established (ue=%v teids=%v); ending: %s", c, s.CPSEID, up, u32IP(ue), teids, ending)
+		r.Skel("end:" + ending)
+		kinds[ending] = true
+		switch ending {
+		case "deletion":
+			dr := p.Delete(s)
+			if !dr.Accepted && r.AgentAlive() {
+				r.Violate("C05", "deletion-rejected:up4:"+r.causeFor(up, "plain"), "deletion of the live session rejected (cause %d)", dr.Cause)
+				return
+			}
+			delete(p.Sessions, s.CPSEID)
+		case "release":
+			p.Release()
+			p.Sessions = map[uint64]*CPSession{}
+			r.Sim.RunFor(500 * time.Millisecond)
+		case "silence":
+			keepAlive, p.AnswerHeartbeats = false, false
+			r.Sim.RunFor(8 * time.Second)
+			p.Associated = false
+			p.Sessions = map[uint64]*CPSession{}
+		case "hbfail":
+			p.AnswerHeartbeats = false
+			kaPeriod = 2500 * time.Millisecond
+			r.Sim.RunFor(8 * time.Second)
+			kaPeriod = time.Second
+			p.Associated = false
+			p.Sessions = map[uint64]*CPSession{}
+		case "report-not-found":
+			p.ReportCause = ie.CauseSessionContextNotFound
+			before := len(p.Rx)
+			sw.InjectDigest(ue)
+			r.Sim.RunFor(500 * time.Millisecond)
+			p.ReportCause = ie.CauseRequestAccepted
+			reported := false
+			for _, m := range p.Rx[before:] {
+				if m.Err == nil && m.Msg.MessageType() == message.MsgTypeSessionReportRequest {
+					reported = true
+				}
+			}
+			if !reported {
+				// no report was sent (not this property's matter): end the session plainly
+				r.Probe("up4-digest-produced-no-report")
+				dr := p.Delete(s)
+				if !dr.Accepted {
+					return
+				}
+			}
+			delete(p.Sessions, s.CPSEID)
+		}
+		if !r.AgentAlive() {
+			break
+		}
+		// ---- nothing of the session is left at the switch, every id is back
+		ctx := fmt.Sprintf("cycle %d: session up=%d ended by %s", c, up, ending)
+		r.CheckUP4Image("C05", ctx, "end:"+ending, o)
+		if len(r.Violations) > 0 {
+			return
+		}
+		occ := probeOcc()
+		var keys []string
+		for k := range occ0 {
+			keys = append(keys, k)
+		}
+		sort.Strings(keys)
+		for _, k := range keys {
+			if occ[k] != occ0[k] {
+				r.Violate("C05", imgSig("up4-"+k, "not-returned", r.causeFor(up, "end:"+ending)), "%s: UP4 %s has size %d, %d before the first session (all: %v)", ctx, k, occ[k], occ0[k], occ)
+				return
+			}
+		}
+		st, used := r.probeAgent(teids)
+		live := len(r.LiveSessions())
+		if st.poolHeld != live {
+			r.Violate("C05", "ue-address-not-returned:"+ending, "%s: the pool still holds %d address(es) for %d live session(s) (free %d of %d)", ctx, st.poolHeld, live, st.poolFree, poolSize)
+			return
+		}
+		for i, u := range used {
+			if u {
+				r.Violate("C05", "teid-not-returned:"+ending, "%s: TEID %d chosen by the agent is still marked used (%d TEIDs marked used, %d live sessions)", ctx, teids[i], st.teidsUsed, live)
+				return
+			}
+		}
+		if st.stored != live {
+			r.Violate("C05", "session-record-left:"+ending, "%s: %d session record(s) stored for %d live session(s)", ctx, st.stored, live)
+			return
+		}
+		if int(st.gauge+0.5) != live {
+			r.Violate("C05", "sessions-gauge:"+ending, "%s: pfcp_sessions gauge is %v with %d live session(s)", ctx, st.gauge, live)
+			return
+		}
+	}
+	if len(kinds) >= 2 {
+		r.Probe("two-kinds-of-ending-in-one-run")
+	}
+	if len(r.Violations) == 0 && r.AgentAlive() {
+		r.Probe(fmt.Sprintf("up4-cycles-beyond-array-size-%d", small))
 	}
 	r.CheckNoPanics("C05")
 }
